@@ -30,6 +30,7 @@ type Case struct {
 	Loaders  map[string]string `json:"loaders,omitempty"`
 	Binary   map[string][]byte `json:"binary_files,omitempty"` // asset files (raw bytes)
 	RefEntry string            `json:"ref_entry,omitempty"`    // assets: reference script computing the expected trace
+	StarKey  string            `json:"star_key,omitempty"`     // export-star family member: mask-cjsMask-enter-viaMid
 }
 
 func writeTree(dir string, files map[string]string, bin map[string][]byte) error {
@@ -195,6 +196,14 @@ func judge(c Case) vdrv.Verdict {
 		return v
 	}
 	v := vdrv.Fail("bundle behaves differently from native loading", rt, gt+"\n--- bundle\n"+out)
+	if c.StarKey != "" {
+		cat := starCategory(rt, gt)
+		v.Detail = "star-category=" + cat + " " + v.Detail
+		if starBaseline()[c.StarKey+"-"+c.Format] == cat && cat != "other-unclassified" {
+			v.Known = "C02-star-" + cat
+		}
+		return v
+	}
 	if c.Format == "esm" && hasLabel(c.Labels, "export-star-from-cjs") && stripExports(rt) == stripExports(gt) {
 		// known finding C02-esm-export-star-from-cjs: only the entry's export list differs
 		v.Known = "C02-esm-export-star-from-cjs"
@@ -287,7 +296,7 @@ func runStarFamilies(t *testing.T) {
 						if !H.MySlice(i) {
 							continue
 						}
-						if !H.Thorough() && uint64(i/H.NShards)%6 != H.Seed%6 {
+						if !H.Thorough() && uint64(i/H.NShards)%12 != H.Seed%12 {
 							continue
 						}
 						files := map[string]string{}
@@ -327,7 +336,7 @@ func runStarFamilies(t *testing.T) {
 						eb.WriteString("function dump(ns) { return Object.keys(ns).sort().map(function (k) { return k + \"=\" + String(ns[k]); }).join(\",\"); }\n")
 						eb.WriteString("log(\"entered\", dump(entered));\nlog(\"n1\", dump(n1));\nlog(\"n2\", dump(n2));\nlog(\"n3\", dump(n3));\n")
 						files["entry.mjs"] = eb.String()
-						c := Case{Files: files, Entry: "entry.mjs", Format: format, Platform: "node", Labels: []string{"star-family", fmt.Sprintf("stars=%d", bitsSet(mask)), fmt.Sprintf("cjsstars=%d", bitsSet(cjsMask))}}
+						c := Case{Files: files, Entry: "entry.mjs", Format: format, Platform: "node", StarKey: fmt.Sprintf("%d-%d-%d-%v", mask, cjsMask, enter, viaMid), Labels: []string{"star-family", fmt.Sprintf("stars=%d", bitsSet(mask)), fmt.Sprintf("cjsstars=%d", bitsSet(cjsMask))}}
 						if cjsMask != 0 {
 							c.Labels = append(c.Labels, "export-star-from-cjs")
 						}
@@ -338,6 +347,64 @@ func runStarFamilies(t *testing.T) {
 		}
 	}
 	H.Exhaustive("stars", H.Thorough())
+}
+
+// The export-star family is finite, and on the pinned tree a large part of it deviates from Node in three
+// classified ways (see known-findings.d/C02.json). The shapes that deviate, with the class of the
+// deviation, are listed in star_baseline.json; a failing shape is forgiven only if it is listed there with
+// the same class, so a change of the set of failing shapes is reported.
+var starTable map[string]string
+
+func starBaseline() map[string]string {
+	if starTable == nil {
+		starTable = map[string]string{}
+		if b, err := os.ReadFile("star_baseline.json"); err == nil {
+			json.Unmarshal(b, &starTable)
+		}
+	}
+	return starTable
+}
+
+func dropTokens(t string, toks []string) string {
+	for _, x := range toks {
+		t = strings.ReplaceAll(t, x, "")
+	}
+	for strings.Contains(t, ",,") {
+		t = strings.ReplaceAll(t, ",,", ",")
+	}
+	t = strings.ReplaceAll(t, "\",", "\"")
+	t = strings.ReplaceAll(t, ",\"", "\"")
+	t = strings.ReplaceAll(t, "{,", "{")
+	t = strings.ReplaceAll(t, ",}", "}")
+	return t
+}
+
+// starCategory classifies a deviation: "esm-vs-cjs-conflict" (a name exported by an ES module and by a
+// CommonJS module through two stars is kept although it is ambiguous natively), "cjs-names-lost" (names of
+// a star-exported CommonJS module are missing), "ambiguous-esm-name-kept" (a name exported by two ES modules
+// through two stars is kept), or combinations.
+func starCategory(ref, got string) string {
+	a := []string{"own3=own3", "\"own3\"=s:\"own3\""}
+	b := []string{"alsoC=42", "fromC=c", "own3=c-shadowed-by-local", "\"alsoC\"=n:4045000000000000(42)", "\"fromC\"=s:\"c\"", "\"own3\"=s:\"c-shadowed-by-local\""}
+	c := []string{"same=same-from-m1", "same=same-from-m2", "\"same\"=s:\"same-from-m1\"", "\"same\"=s:\"same-from-m2\""}
+	sets := []struct {
+		name string
+		toks []string
+	}{{"esm-vs-cjs-conflict", a}, {"cjs-names-lost", b}, {"ambiguous-esm-name-kept", c}}
+	for mask := 1; mask < 8; mask++ {
+		var toks []string
+		var names []string
+		for i, s := range sets {
+			if mask&(1<<i) != 0 {
+				toks = append(toks, s.toks...)
+				names = append(names, s.name)
+			}
+		}
+		if dropTokens(ref, toks) == dropTokens(got, toks) {
+			return strings.Join(names, "+")
+		}
+	}
+	return "other-unclassified"
 }
 
 func bitsSet(x int) int {
@@ -439,8 +506,10 @@ func TestCheck(t *testing.T) {
 	defer func() { H.Finish(complete) }()
 	H.RunReplays(t, subs)
 	H.Sub(t, "stars", runStarFamilies)
-	H.Sub(t, "graphs", runGraphs)
-	H.Sub(t, "assets", runAssets)
+	if os.Getenv("VERIF_C02_ONLY_STARS") == "" { // (set only when regenerating star_baseline.json)
+		H.Sub(t, "graphs", runGraphs)
+		H.Sub(t, "assets", runAssets)
+	}
 	complete = true
 }
 
